@@ -102,7 +102,10 @@ func init() {
 			// goroutine during the at-th Accept call
 			for cfg := 0; cfg < 16; cfg++ {
 				for conns := 1; conns <= 2; conns++ {
-					for at := 0; at <= conns; at++ {
+					for at := -2; at <= conns; at++ {
+						if at == -1 && cfg&1 == 0 {
+							continue // -1: Shutdown is started from the OnServeFunc callback
+						}
 						js = append(js, sym.Job{Harness: "VH_C17_race", Params: map[string]int{"callbacks": cfg, "conns": conns, "at": at}})
 					}
 				}
@@ -110,7 +113,7 @@ func init() {
 			return js
 		},
 		Bounds: map[string]string{
-			"quick":    "all 16 set/unset combinations of the four callbacks x 0..2 incoming connections (each sends one request, accept callback's verdict symbolic per connection) x handler {conforming, panicking, conforming but slower than the write timeout} x shutdown flag set or not before Accept fails; Shutdown on 0..3 tracked connections with symbolic busy flags; happens-before race detection over the sequentialised run of the serve loop, 1..2 connection goroutines and a Shutdown goroutine started during any Accept call, all 16 callback configurations",
+			"quick":    "all 16 set/unset combinations of the four callbacks x 0..2 incoming connections (each sends one request, accept callback's verdict symbolic per connection) x handler {conforming, panicking, conforming but slower than the write timeout} x shutdown flag set or not before Accept fails; Shutdown on 0..3 tracked connections with symbolic busy flags; happens-before race detection over the sequentialised run of the serve loop, 1..2 connection goroutines and a Shutdown goroutine started during any Accept call from the OnServeFunc callback (the usual server-is-up signal) or before the serve call, all 16 callback configurations",
 			"thorough": "same (the bound is the claim)",
 		},
 		Outside:   []string{"goroutine interleavings: each connection goroutine is run to completion at its spawn point (one schedule), so the outcomes of concurrent connects/disconnects/shutdown under other schedules, the isBeingHandled hand-over under concurrency, races that need a path only reachable under a particular interleaving, 'the port no longer accepts connections' and 'cancelling the context makes serve return in bounded time' are NOT decided by this check"},
